@@ -2,20 +2,22 @@
 
  * proof: `Props/C29.lean` — theorems about the protocol machine of `Model/LsProto.lean` (events
    open / change / handler publish / background task completion; verdicts and diagnostic contents
-   of texts uninterpreted): the full statement `LastPublishIsFinal`, its negation for the faithful
-   machine on the confirmed history of finding F8 (`last_publish_counterexample`) and on the
-   one-notification history of finding F38 (`early_publish_counterexample`), the statement for
-   restricted schedules (`last_publish_partial`, `last_publish_timely`) and for the machine with
-   both repairs, all histories and schedules (`last_publish_is_final_fixed`);
+   of texts uninterpreted): the full statement `LastPublishIsFinal` for the machine with both
+   repairs, all histories and schedules (`last_publish_is_final_fixed`) — this is the machine the
+   repaired server is tied to (`Model/LsProtoFixed.lean`). Kept as a record of the former defects:
+   the negation of the statement for the machine without the repairs on the history of finding F8
+   (`last_publish_counterexample`) and of finding F38 (`early_publish_counterexample`), that
+   neither repair alone suffices (`early_publish_counterexample`, `stale_publish_counterexample`),
+   and the restricted schedules on which the unrepaired code was right (`last_publish_partial`,
+   `last_publish_timely`);
  * tie D (exact): `pv_ls c29` drives the REAL `Server` over an in-memory connection; a cfg-guarded
-   gate in `Server::check_grammar` (hooks/c29_gate.patch) makes every schedule deterministic; the
-   published notifications (version + signature of the diagnostics) must equal the machine's
-   trace for every interleaving of a small scope (exhaustive) and for random longer histories;
- * oracle: the property itself on the real trace. A failing schedule is attributed to a listed
-   finding only if the faithful machine reproduces the real trace AND the machine with ONLY that
-   finding's repair switched on satisfies the property on the same schedule; schedules that need
-   both repairs are attributed to the pair; everything else is a VIOLATION."""
-import re, subprocess
+   gate in server.rs (hooks/c29_gate.patch) makes every schedule deterministic; the published
+   notifications (version + signature of the diagnostics) must equal the trace of the machine
+   WITH BOTH REPAIRS (`ls29r`) for every interleaving of a small scope (exhaustive) and for random
+   longer histories;
+ * oracle: the full property itself on the real trace (`ls29r-check`). Nothing is attributed to a
+   known finding any more (F8 and F38 are repaired): every failing schedule is a VIOLATION."""
+import subprocess
 from . import common
 
 FILES = ["crates/parol-ls/src/server.rs"]
@@ -23,25 +25,11 @@ FILES = ["crates/parol-ls/src/server.rs"]
 
 def oracle_req(case, reply):
     w = case.split()
-    if w[0] != "ls29" or reply in ("bad-op", "panic"):
+    if w[0] != "ls29r" or reply in ("bad-op", "panic"):
         return None
     if len(reply.split()) != 1:
         return None
-    return "ls29-check " + " ".join(w[1:]) + " " + reply
-
-
-def attribute(case, reply, why):
-    m = re.search(r"model=(\S+) f8=(\S+) f35=(\S+) both=(\S+)", why)
-    if not m or m.group(1) != "agrees":
-        return None             # the machine does not even reproduce the trace: new
-    f8, f35, both = m.group(2), m.group(3), m.group(4)
-    if f8 == "ok":
-        return "F8"
-    if f35 == "ok":
-        return "F38"
-    if both == "ok":
-        return "F8+F38"
-    return None
+    return "ls29r-check " + " ".join(w[1:]) + " " + reply
 
 
 def nontrivial(case):
@@ -53,8 +41,10 @@ def nontrivial(case):
 
 
 def race_observation(ctx, state):
-    """Observation only (timing-dependent, never a verdict): how often finding F38 happens by itself
-    on ungated servers."""
+    """Ungated servers: one didOpen of a grammar that is not LL(1) on each of n fresh servers. Since the
+    repair the analysis thread is spawned after the handler's publish, so "error BEFORE the handler's
+    empty list" (finding F38 happening by itself) is impossible and every occurrence is a violation;
+    the other counts are timing-dependent observations only."""
     n = 5000 if ctx.thorough else 1000
     try:
         p = subprocess.run([state["binary"], "c29", "race", str(n)], capture_output=True, text=True, timeout=600)
@@ -62,13 +52,19 @@ def race_observation(ctx, state):
         obs = dict(kv.split("=", 1) for kv in line[0].split()[2:]) if line else {}
     except Exception as e:              # noqa: BLE001 - observation only
         obs = {"error": str(e)}
+    if obs.get("error-before-ok", "0") != "0":
+        common.violation(ctx, f"{ctx.pid}_ungated_race.json", {
+            "kind": "ungated server published the background error BEFORE the handler's empty list (finding F38 is back)",
+            "observation": obs,
+            "case": "ls29r notll=-/E1.m_Maximum_lookahead_of_2_e o0,f0,p lazy",
+            "note": "timing-dependent: rerun `pv_ls c29 race <n>`; the case line is the gated schedule of the same defect"})
     state["coverage_extra"] = {
-        "ungated_race_observation_not_a_verdict": dict(obs, note=(
-            "fresh ungated servers (max_k = 1), one didOpen of a grammar that is not LL(1) each: how often the background "
-            "thread's error was published BEFORE the handler's empty list (finding F38 without the gate); timing-dependent")),
+        "ungated_race": dict(obs, note=(
+            "fresh ungated servers (max_k = 1), one didOpen of a grammar that is not LL(1) each; error-before-ok must be 0 "
+            "(checked); the other counts are timing-dependent")),
         "gate": "hooks/c29_gate.patch (#[cfg(parol_verif)] mod verif_gate in crates/parol-ls/src/server.rs): blocks each analysis thread "
-                "after its start and before its publish until released; runs chosen threads inside the window between thread::spawn "
-                "and the handler's publish; FINISHED signal by a Drop guard; unset gate = no effect",
+                "after its start and before its publish (before it takes the latest-version lock) until released; runs chosen threads "
+                "inside the window between analyze and the handler's publish; FINISHED signal by a Drop guard; unset gate = no effect",
         "not_covered": "in --stdio mode lsp-server's writer thread holds the stdout lock and calculate_lalr1_parse_table reports resolved "
                        "conflicts with println!, so the analysis thread of an LALR grammar with conflicts blocks forever there (DESIGN §6 C29); "
                        "the harness uses the in-memory connection, where the thread finishes and the warning is published",
@@ -78,52 +74,58 @@ def race_observation(ctx, state):
 SPEC = {
     "prop": "c29",
     "mod": "ParolModel.Props.C29",
+    "more_mods": ["ParolModel.Props.C29Fixed"],
     "files": FILES,
     "bins": ("pv", "pv_ls"),
     "binary": "pv_ls",
     "oracle_req": oracle_req,
-    "attribute": attribute,
     "nontrivial": nontrivial,
     "extra": race_observation,
     "level": "proof",
     "rule": "tie D, exact comparison of the published (version, diagnostics signature) sequence of the real Server with the trace of the "
-            "faithful protocol machine. Exhaustive: every sequence of <= 3 open/change notifications over four documents (clean LL(1); not "
+            "protocol machine with both repairs on (ls29r); oracle: the full property on every real trace, no attribution. Exhaustive: every sequence of <= 3 open/change notifications over four documents (clean LL(1); not "
             "LL(2) -> background error; LALR(1) with conflicts -> background warning; syntax error -> synchronous error) x every "
-            "distribution of the task completions over the slots 'inside the window between spawn and the handler's publish of edit j' / "
+            "distribution of the task completions over the slots 'inside the window between analyze and the handler's publish of edit j' / "
             "'after the publish of edit j' x every order inside a slot; 4 notifications: quick over {clean, not LL(2)} where only the edit's "
             "own task may finish inside its window; thorough over all four documents with own-task windows and over {clean, not LL(2)} where any "
             "unfinished task may finish inside any later window. Plus every catalogue document alone (10 documents incl. LL(2), left recursion, non-productive, LALR variants), the two "
             "witness histories, and 300 (quick) / 3000 (thorough) random histories of 4..9 notifications over the whole catalogue. Cases "
             "alternate between lazy (a task computes only when it is scheduled to finish) and eager (tasks compute as soon as they are spawned; "
-            "only their publish is scheduled). non-trivial = at least two notifications and one task completion; distinct = distinct case lines",
+            "only their publish is scheduled). A task scheduled inside the window of its OWN edit does not exist there in the repaired "
+            "server (it is spawned after the handler's publish): the harness runs it directly after the handler returns, which is the "
+            "same trace for the repaired machine; on a server without the F38 repair the gate runs it inside the window and the tie "
+            "and the oracle fail. non-trivial = at least two notifications and one task completion; distinct = distinct case lines",
     "assumptions": [
-        "the protocol machine mirrors handle_open_document / handle_change_document / analyze / check_grammar / notify_* of server.rs (read statement by statement; events: synchronous part incl. thread::spawn, handler publish, task completion); agreement of the published traces is observed on the explored schedules (exact comparison)",
-        "the gate hook (cfg parol_verif, add-only) only delays the analysis threads and the handler at the three points named in the patch; every schedule it enforces is one the unsynchronised threads of the unchanged server can produce by themselves",
+        "the protocol machine with both repairs on mirrors handle_open_document / handle_change_document / analyze / check_grammar / publish_if_latest / notify_* of the repaired server.rs (read statement by statement, Model/LsProtoFixed.lean; events: registration of the latest version + synchronous part, handler publish followed by thread::spawn, task completion = lock, version check, publish, unlock); agreement of the published traces is observed on the explored schedules (exact comparison)",
+        "the gate hook (cfg parol_verif, add-only) only delays the analysis threads and the handler at the points named in the patch; every schedule it enforces is one the threads of the server can produce by themselves",
         "verdicts and diagnostic contents of a text are functions of the text and max_k only (the machine treats them as uninterpreted functions); the harness declares them per catalogue document and the tie would show a wrong declaration as a disagreement",
         "one document (one URI); didClose and configuration changes are outside the property's statement",
-        "document versions increase (LSP); needed by last_publish_is_final_fixed only",
+        "document versions increase (LSP); hypothesis of last_publish_is_final_fixed (the repaired server compares versions for equality only)",
     ],
 }
 
 CLAIM = {
     "category": "proof",
-    "text": "Proof on the protocol model + exhaustive small-scope tie to the real server. Lean theorems (Props/C29.lean) about the protocol "
-            "machine of Model/LsProto.lean: last_publish_counterexample (the full statement LastPublishIsFinal is FALSE of the faithful machine: "
-            "open v1 [background error], change v2 [clean], task v1 finishes -> the last published diagnostics are the stale error of v1; "
-            "finding F8), early_publish_counterexample (a single didOpen suffices when the task finishes between thread::spawn and the "
-            "handler's notify_analysis_ok: the error is published first and wiped by the empty list; finding F38; also shows that the F8 "
-            "repair alone is not enough) and stale_publish_counterexample (the F38 repair alone is not enough), last_publish_timely / "
-            "last_publish_partial (the unchanged code IS right on all schedules in which every task that yields diagnostics finishes after its "
-            "handler's publish and before the next notification - in particular when every task finishes before the next event, and for "
-            "arbitrary interleavings when no earlier task yields diagnostics), last_publish_is_final_fixed (the machine with both repairs "
-            "satisfies the full statement for ALL histories with increasing versions and ALL schedules). The machine is tied to "
-            "crates/parol-ls/src/server.rs by driving the real Server (in-memory connection, cfg-guarded gate in check_grammar) through "
-            "every interleaving of the stated small scope and comparing the published notifications exactly; the property is also decided "
-            "on every real trace, and failures are attributed to F8 / F38 only when the faithful machine reproduces the trace and the "
-            "machine with only that repair satisfies the property on the same schedule.",
+    "text": "Proof on the protocol model + exhaustive small-scope tie to the real (repaired) server. Lean theorem (Props/C29.lean) about the "
+            "protocol machine of Model/LsProto.lean with both repairs switched on: last_publish_is_final_fixed (for ALL histories of "
+            "open/change notifications with increasing versions and ALL schedules of handler publishes and task completions, once "
+            "everything has finished the last published notification is the diagnostics of the final text alone, tagged with the final "
+            "version). The two switches are what the repaired server does (Model/LsProtoFixed.lean): f8 = a background thread publishes "
+            "through publish_if_latest (lock, publish only if its version is still the registered latest one, unlock after the publish; "
+            "analyze registers the version first); f35 = check_grammar returns the background analysis and the handler spawns it after "
+            "its own publish. The machine is tied to crates/parol-ls/src/server.rs by driving the real Server (in-memory connection, "
+            "cfg-guarded gate) through every interleaving of the stated small scope and comparing the published notifications exactly "
+            "with the repaired machine; the full property is also decided on every real trace and every failure is a violation. Record "
+            "of the repaired defects (theorems about the machine with the switches off): last_publish_counterexample (F8: open v1 "
+            "[background error], change v2 [clean], task v1 finishes -> stale error of v1 is last), early_publish_counterexample (F38: "
+            "the task finishes between thread::spawn and the handler's notify_analysis_ok -> its error is wiped by the empty list; also: "
+            "the F8 repair alone is not enough), stale_publish_counterexample (the F38 repair alone is not enough), last_publish_timely / "
+            "last_publish_partial (schedules on which the unrepaired code was right). Props/C29Fixed.lean: repaired_window_void, "
+            "repaired_stale_silent (for the repaired machine a task completion commutes with the handler's publish step and a task of an "
+            "older version publishes nothing: the harness may run the task of an edit directly after the handler instead of inside its window).",
     "design_ref": "DESIGN.md §6 C29",
-    "note": "The unchanged server violates the property (known findings F8 and F38, reproduced on every run; F38 is new: the handler publishes "
-            "its 'ok' AFTER spawning the analysis thread, and the ungated server shows the inverted order by itself a few times in 10^4 opens). "
+    "note": "Findings F8 and F38 are repaired in the server (latest-version table checked under a lock by the analysis threads; thread spawned "
+            "after the handler's publish); run against a server without either repair the check reports a VIOLATION with the failing schedule. "
             "Trusted: Lean kernel (propext, Quot.sound, Classical.choice), faithfulness of the hand-written machine as observed by the exact "
             "tie, the gate hook, harness and orchestrator. Diagnostic CONTENT is compared only up to a signature (severities, count, code or "
             "first words of the message).",
@@ -144,6 +146,4 @@ def replay(ctx, payload):
     oreq = oracle_req(case, a)
     o = common.model_lines([oreq])[0] if oreq else "no-oracle-request"
     print(f"case: {case}\nimpl: {a}\nmodel: {b}\noracle: {o}")
-    if o != "ok":
-        print("attributed to:", attribute(case, a, o))
     return 0 if (a == b and o == "ok") else 1
